@@ -47,8 +47,8 @@ def check(case, res):
     need, hidden = model.needed(case, case["target"], cached, again)
     bad = {int(i) for i in case.get("outcomes", {})}
 
-    if res["status"] == "deadlock":
-        v.append(("deadlock", "cond run never returns: main thread blocked waiting for a child "
+    if res["status"] in ("deadlock", "livelock"):
+        v.append((res["status"], "cond run never returns: main thread blocked waiting for a child "
                   "completion although no task process is running (%s)" % res.get("detail")))
         return Outcome(v, labels, True, obs.brief())
     if res.get("uncaught"):
